@@ -137,6 +137,19 @@ theorem C19_nonempty_topological (ops : List Op) (named : List Nat) (st : St)
     ∀ o ∈ ops, ((run st ops).get o.dst).s ≠ [] :=
   C19_nonempty_partial ops st (topo_wellFed ops named st hn ht)
 
+/-- **completeness**: every delivered cell that is an original item or the target of some link entry
+(`coveredB`) has a non-empty name, under the structural feeding condition.  An item created outside of any
+link scope violates `coveredB`; the check reports such a run with its input. -/
+theorem C19_nonempty_delivered (ops : List Op) (named : List Nat) (st : St) (D : List Nat)
+    (hn : ∀ c ∈ named, (st.get c).s ≠ []) (ht : topoB named ops = true)
+    (hc : coveredB named ops D = true) : ∀ c ∈ D, ((run st ops).get c).s ≠ [] := by
+  intro c hcD
+  simp only [coveredB, List.all_eq_true, Bool.or_eq_true, List.contains_iff_mem, List.any_eq_true,
+    beq_iff_eq] at hc
+  rcases hc c hcD with h | ⟨o, ho, hd⟩
+  · rw [run_keeps ops st c (hn c h)]; exact hn c h
+  · rw [← hd]; exact C19_nonempty_topological ops named st hn ht o ho
+
 /-- `CopyLink::AddEntry` (with the last-registered guard) never reorders: the schedule after adding an
 entry executes the old schedule and then exactly the new entry's copies -/
 theorem C19_addEntry_copy_preserves_order (base : Nat → Nat) (S : List Entry) (link sn sb dn db len : Nat) :
